@@ -168,6 +168,7 @@ def configs(tier):
     out.append(("lev", {"K": 6}))
     out.append(("lev", {"K": 129}))
     out.append(("lev", {"K": 300}))
+    out.append(("lev_chars", {}))
     out.append(("ord", {}))
     out.append(("num", {}))
     out.append(("caller_mutates", {"tag": "m"}))
@@ -261,6 +262,29 @@ class Runner:
                 if (v == 0) != (a == b):
                     self.res["violations"].append({"msg": f"[lev K={K}] d('{a}','{b}') = {v}",
                                                    "case": {"cfg": "lev", "K": K, "a": a, "b": b}})
+
+    def run_lev_chars(self):
+        """Edit distance is counted in characters: two pairs of names with the same lengths and the same character edit
+        distance get the same value, whatever the characters are (accents, CJK, astral code points, combining marks)."""
+        labels = ["deja", "déjà", "dxjy", "naive", "naïve", "naxve", "日本語", "abc", "ab𝄞", "abd", "e\u0301", "ex", "ey"]
+        r = {"k": "lev", "labels": labels}
+        d = build_dissim(r)
+        pairs = [((0, 2, a), (1, 3, b)) for a in labels for b in labels]
+        check_pairs(self.pa, self.res, "lev characters", r, d, pairs, None)
+        groups = {}
+        for a in labels:
+            for b in labels:
+                sig = (max(len(a), len(b)), min(len(a), len(b)), lev_distance(a, b))
+                v = float(d.d(to_unit((0, 2, a)), to_unit((1, 3, b))))
+                self.res["evaluations"] += 1
+                self.res["transitions"] += 1
+                self.res["traces"] += 1
+                if sig in groups and not close(groups[sig][0], v):
+                    self.res["violations"].append({
+                        "msg": f"[lev characters] d({a!r},{b!r}) = {v} but d{groups[sig][1]} = {groups[sig][0]}: both pairs have "
+                               f"lengths {sig[:2]} and character edit distance {sig[2]}",
+                        "case": {"cfg": "lev_chars", "a": a, "b": b}, "sig": h(["levchars", a, b])})
+                groups.setdefault(sig, (v, (a, b)))
 
     def _ordinal_family(self, name, labels, positions, make):
         """every joint permutation of (label, position): identical values, proportional to |pa - pb|"""
